@@ -294,30 +294,36 @@ def check(case, out, consts=None):
                             q, k[1], pw, P["tag"], ci, M2["mid"], M2["tag"], M2["len"], M1["mid"], M1["tag"], M1["len"], M1["src"]))
                     break
 
-    # non-overtaking
+    # non-overtaking: a receive that got M2 although an earlier message M1 of the same sender (same destination and communicator)
+    # also fits its pattern and went to a receive posted later. Every such pair is counted; one violation is reported per
+    # receive, against the *earliest* overtaken message (the one the receive should have got at the latest), so that the key
+    # names the root pair and not the pairs that follow from it (a message queued behind the overtaken one is overtaken too).
     byrc = {}
     for k, M in match.items():
         byrc.setdefault((k[0], M["ci"], M["src"]), []).append((M["seq"], k, M))
     for (q, ci, s), lst in sorted(byrc.items()):
         lst.sort()
-        for i in range(len(lst)):
-            for j in range(i + 1, len(lst)):
+        for j in range(len(lst)):
+            _, kb, M2 = lst[j]
+            Rb = recvs[kb]
+            es, et = Rb["eff"]
+            first = None
+            for i in range(j):
                 _, ka, M1 = lst[i]
-                _, kb, M2 = lst[j]
                 stats["order_pairs"] += 1
-                Rb = recvs[kb]
-                es, et = Rb["eff"]
-                if kb[1] < ka[1] and (et == G.ANY or et == M1["tag"]):
+                if et == G.ANY or et == M1["tag"]:
                     stats["order_pairs_matching"] = stats.get("order_pairs_matching", 0) + 1
-                    caps = "" if case["a"] == 0 else ":bufs=%s-then-%s" % (capclass(rrec[kb]["cap"]), capclass(rrec[ka]["cap"]))
-                    bad("overtake:recv=%s:first=%s:second=%s%s" % ("any_tag" if et == G.ANY else "tag", sizeclass(case, M1),
-                                                                    sizeclass(case, M2), caps),
-                        "rank %d: receive op %d (src=%s,tag=%s,cap=%d,comm=%d) got message %d (tag %d, len %d, sent second) while message %d "
-                        "(tag %d, len %d, sent first by the same rank %d, also matching) went to the later receive op %d (cap=%d)" % (
-                            q, kb[1], es, et, rrec[kb]["cap"], ci, M2["mid"], M2["tag"], M2["len"], M1["mid"], M1["tag"], M1["len"], s,
-                            ka[1], rrec[ka]["cap"]))
-                elif (et == G.ANY or et == M1["tag"]):
-                    stats["order_pairs_matching"] = stats.get("order_pairs_matching", 0) + 1
+                    if kb[1] < ka[1] and first is None:
+                        first = (ka, M1)
+            if first is not None:
+                ka, M1 = first
+                caps = "" if case["a"] == 0 else ":bufs=%s-then-%s" % (capclass(rrec[kb]["cap"]), capclass(rrec[ka]["cap"]))
+                bad("overtake:recv=%s:first=%s:second=%s%s" % ("any_tag" if et == G.ANY else "tag", sizeclass(case, M1),
+                                                                sizeclass(case, M2), caps),
+                    "rank %d: receive op %d (src=%s,tag=%s,cap=%d,comm=%d) got message %d (tag %d, len %d, sent second) while message %d "
+                    "(tag %d, len %d, sent first by the same rank %d, also matching) went to the later receive op %d (cap=%d)" % (
+                        q, kb[1], es, et, rrec[kb]["cap"], ci, M2["mid"], M2["tag"], M2["len"], M1["mid"], M1["tag"], M1["len"], s,
+                        ka[1], rrec[ka]["cap"]))
     complete = len(done) == case["np"]
     if complete:
         for mid, m in sends.items():
